@@ -149,6 +149,12 @@ def run_one(chk, sseed):
     rng = random.Random(sseed)
     nthreads = rng.choice([1, 2, 3, 5, 20])
     nrepos = rng.randint(1, 4)
+    # one repository may never get valid release files (all of them 404 in every round, so its release loop runs out of
+    # tries and gives up) while more repositories than nthreads are waiting for a slot
+    dead_release = rng.random() < 0.3
+    if dead_release:
+        nthreads = rng.choice([1, 1, 2])
+        nrepos = rng.randint(nthreads + 2, 5)
     w = common.World(rng, nrepos, settings={"nthreads": str(nthreads)}, select_all=True)
     try:
         big = rng.random() < 0.25
@@ -165,6 +171,10 @@ def run_one(chk, sseed):
         for repo in w.repos:
             if repo["url"] in w.cfgs and not big or repo is not w.repos[0]:
                 plans[repo["url"]], _ = scenario.gen_plan(rng, rng.choice(["none", "transient"]), repo, w.cfgs[repo["url"]], stores[repo["url"]])
+        if dead_release:
+            dead = rng.choice(w.repos[:2] if not big else w.repos[1:2])
+            plans[dead["url"]] = [[k, "*", "404"] for k in stores[dead["url"]] if k.rsplit("/", 1)[-1] in ("InRelease", "Release", "Release.gpg")]
+            chk.count("worlds_with_a_repository_that_never_gets_release_files")
         kind = rng.choice(["random", "fifo", "lifo", "random-timer"])
         chooser = {"random": vloop.RandomChooser(rng.randrange(1 << 30)), "fifo": vloop.FifoChooser(), "lifo": vloop.LifoChooser(),
                    "random-timer": vloop.RandomChooser(rng.randrange(1 << 30), p_timer=0.3)}[kind]
@@ -180,7 +190,7 @@ def run_one(chk, sseed):
             res = run_e2e.execute(w.sb, w.repos, stores, plans, chooser, pre_run=pre, budget=60000)
         finally:
             obs.uninstall()
-        replay = {"scenario_seed": sseed, "nthreads": nthreads, "repos": nrepos, "schedule": kind, "big": big}
+        replay = {"scenario_seed": sseed, "nthreads": nthreads, "repos": nrepos, "schedule": kind, "big": big, "dead_release": dead_release}
         if isinstance(res.exception, vloop.Deadlock):
             chk.violation("deadlock", replay, f"no runnable task, no timer, no pending response: {res.exception}")
         if res.net.max_inflight > nthreads:
